@@ -35,6 +35,12 @@ def run_check(prop: str, tier: str, repo_root=None, write=True):
             print(f'ANALYSIS-ERROR (after violations were found) property={prop}: {e}')
         if not ck.obligations:
             raise AnalysisError(f'{prop}: no obligations generated')
+        und = [o for o in ck.obligations if o.status == 'undecided']
+        if und:
+            txt = '; '.join(f'{o.rule} at {o.loc}: {o.msg}'[:300] for o in und[:4])
+            if not any(o.status == 'violation' for o in ck.obligations):
+                raise AnalysisError(f'{len(und)} rule instance(s) do not recognise the code they are about (neither discharged nor violated): {txt}')
+            print(f'ANALYSIS-ERROR (after violations were found) property={prop}: {len(und)} rule instance(s) undecided: {txt}')
         extra = None
         if tier == 'thorough' and write:
             from . import selftest
